@@ -62,6 +62,9 @@ fn main() {
                         .unwrap_or(4)
                 });
             engine::quiet_panics();
+            if std::env::var_os("VERIF_KEEP_REPE_LOG").is_none() {
+                engine::filter_repe_stderr();
+            }
             let ctx = Ctx {
                 prop: def.id,
                 tier,
